@@ -25,6 +25,8 @@ mod c10;
 mod lsp;
 mod c09;
 mod c17;
+mod c15;
+mod c13;
 
 use std::path::PathBuf;
 
@@ -71,6 +73,8 @@ fn main() {
     "c10" => c10::run(&o),
     "c09" => c09::run(&o),
     "c17" => c17::run(&o),
+    "c15" => c15::run(&o),
+    "c13" => c13::run(&o),
     "c05" => c05::run_stream(&o, "c05"),
     "c04" => c05::run_stream(&o, "c04"),
     s => { eprintln!("unknown stream {s}"); std::process::exit(2); }
